@@ -378,6 +378,7 @@ func c19(c *core.Ctx) {
 		}, "event time")
 	}
 
+	rSync := c.Rule("C19.sync", "the subscriber callback sends the event on the stream before it returns: the Send/SendMsg call is not inside a go statement or a function literal handed to another function (the writer holds the record's guard while the callback runs - C19.order - and that alone orders the events of one record on the stream)", 2)
 	rS := c.Rule("C19.send", "a stream Send/SendMsg inside a function literal that is registered as a subscriber callback executes with a mutex held (callbacks run on writers' goroutines; gRPC forbids concurrent sends on one stream)", 2)
 	for _, f := range p.FuncsIn(pkgGateway) {
 		if f.Decl.Body == nil {
@@ -433,6 +434,25 @@ func c19(c *core.Ctx) {
 						}
 					}
 					rS.Check(locked, f.Key+":callback:"+fo.Name(), call.Pos(), "serialised by "+held.String(), "the subscriber callback sends on the stream without a lock: concurrent writers call "+fo.Name()+" concurrently on one gRPC stream")
+					// synchronous: the send completes before the callback returns. The writer holds the
+					// record's guard while the callback runs, which is what keeps the events of one record
+					// in commit order on the stream; a send handed to another goroutine (go statement, or a
+					// literal passed to a helper that starts one) is ordered only by the scheduler.
+					async := ""
+					for _, nd := range core.PathTo(lit.Body, call) {
+						switch v := nd.(type) {
+						case *ast.GoStmt:
+							async = "a go statement"
+						case *ast.CallExpr:
+							for _, a := range v.Args {
+								if inner, isLit := core.Unparen(a).(*ast.FuncLit); isLit && inner.Pos() <= call.Pos() && call.End() <= inner.End() {
+									async = "a function literal handed to " + core.ExprStr(v.Fun)
+								}
+							}
+						}
+					}
+					rSync.Check(async == "", f.Key+":callback:"+fo.Name()+":synchronous", call.Pos(), "sent before the callback returns (the writer still holds the record's guard)",
+						"the subscriber callback hands the send to "+async+": the callback returns - and the writer releases the record - before the event is on the stream, so two commits of one record can reach the subscriber in the wrong order")
 				})
 			}
 		}
